@@ -47,8 +47,16 @@ class VariantAdapter(tsrules.Adapter):
         t = tsrules.strip_cvref(p['t'])
         if t == 'nop::EmptyVariant':
             return [('unk',)]
-        if p.get('rec', '').startswith('nop::Variant<') and p['rec'] != fn.get('rec'):
-            return [('skip',)]
+        return None
+
+    max_other_ctors = 8
+
+    def convertible_alt(self, t):
+        """the unique alternative constructible from a non-element source type (only string literals are used by the probes)"""
+        t = tsrules.strip_cvref(t)
+        if re.match(r'^(const )?char ?(\(&\))?\[\d+\]$', t) or t in ('const char *', 'char *'):
+            k = [i for i, a in enumerate(self.alt_types) if a.startswith('std::basic_string<char')]
+            return k[0] if len(k) == 1 else None
         return None
 
     def alt_of(self, t):
@@ -75,8 +83,20 @@ class VariantAdapter(tsrules.Adapter):
                 out.append('assigning/constructing from EmptyVariant ends with index %s' % idx)
             if c[0] == 'elem':
                 k = self.alt_of(fn['params'][0]['t'])
+                if k is None:
+                    k = self.convertible_alt(fn['params'][0]['t'])
                 if k is not None and idx != k:
-                    out.append('assigning/constructing from an element of alternative %d ends with index %s' % (k, idx))
+                    out.append('assigning/constructing from a value of/for alternative %d ends with index %s' % (k, idx))
+            if c[0] == 'Bx':
+                if c[2] == 'empty':
+                    k = -1
+                else:
+                    k = self.alt_of(c[4])
+                    if k is None:
+                        k = self.convertible_alt(c[4])
+                if k is not None and idx != k:
+                    out.append('converting from another Variant holding %s ends with index %s, expected %d' % (
+                        'nothing' if k == -1 else tsrules.short(tsrules.strip_cvref(c[4])), idx, k))
         if fn.get('defaultctor') and idx != -1:
             out.append('default construction ends with index %s' % idx)
         if n == 'Visit':
@@ -106,39 +126,55 @@ class VariantAdapter(tsrules.Adapter):
         return out
 
 
-def rules(chk, db):
-    chk.rule('L', 'lifetime legality: construct only dead storage; destroy/assign/read only live storage', minimum=20)
-    chk.rule('I', 'index() names exactly the live alternative after every operation', minimum=20)
-    chk.rule('O', 'outside constructors an alternative is constructed only while index() == -1', minimum=5)
-    chk.rule('K', 'copies equal their source and leave it unchanged; const members change nothing', minimum=8)
-    chk.rule('D', 'destructor leaves no live alternative', minimum=1)
-    chk.rule('P', 'postconditions of Become / element and EmptyVariant assignment / Visit / get', minimum=20)
-    chk.rule('MO', 'index_ is declared (hence initialised) before value_', minimum=1)
-    cands = []
+def explore(chk, db, prefix=''):
+    chk.rule(prefix + 'L', 'lifetime legality: construct only dead storage; destroy/assign/read only live storage', minimum=20)
+    chk.rule(prefix + 'I', 'index() names exactly the live alternative after every operation', minimum=20)
+    chk.rule(prefix + 'O', 'outside constructors an alternative is constructed only while index() == -1', minimum=5)
+    chk.rule(prefix + 'K', 'copies equal their source and leave it unchanged; const members change nothing', minimum=8)
+    chk.rule(prefix + 'D', 'destructor leaves no live alternative', minimum=1)
+    chk.rule(prefix + 'P', 'postconditions of Become / element and EmptyVariant assignment / Visit / get', minimum=20)
+    NONTRIVIAL = ('Tracked', 'Tracked2', 'std::basic_string<char, std::char_traits<char>, std::allocator<char>>', 'std::vector<int, std::allocator<int>>')
+    cands = {}
     for q, r in db.records.items():
-        if r.get('rect') == 'nop::Variant' and 'Tracked' in q and 'std::vector<int' in q and 'basic_string' in q:
-            cands.append(q)
-    if not cands:
-        chk.unanalysable('L', 'nop/types/variant.h', 'probe Variant<std::string, std::vector<int>, Tracked> not found')
-        return
-    q = cands[0]
-    r = db.records[q]
-    alts = encrules.split_args(q[len('nop::Variant<'):-1])
-    ad = VariantAdapter(alts)
-    label = 'Variant<string, vector<int>, Tracked>'
+        if r.get('rect') == 'nop::Variant':
+            alts = encrules.split_args(q[len('nop::Variant<'):-1])
+            if all(a in NONTRIVIAL for a in alts) and any(a.startswith('Tracked') for a in alts):
+                # the instantiation the probe exercises completely (most member instances)
+                if len(alts) not in cands or len(tsrules.members_of(db, q)) > len(tsrules.members_of(db, cands[len(alts)])):
+                    cands[len(alts)] = q
+    want_arities = (1, 2, 3, 4)
+    missing = [n for n in want_arities if n not in cands]
+    if missing:
+        chk.unanalysable(prefix + 'L', 'nop/types/variant.h', 'probe Variants of arity %s (all alternatives non-trivially destructible) not found' % missing)
+        return None
 
     class Ex(tsrules.Explorer):
-        def arg_choices(self, fn):
-            out = tsrules.Explorer.arg_choices(self, fn)
-            return [c for c in out if not any(x[0] == 'skip' for x in c)]
-    try:
-        ex = Ex(db, q, ad, label, max_states=60).run()
-    except absx.Unsupported as e:
-        chk.unanalysable('L', label, str(e))
+        pass
+    chk.extra['typestate'] = {}
+    r = None
+    for n in want_arities:
+        q = cands[n]
+        r = db.records[q]
+        alts = encrules.split_args(q[len('nop::Variant<'):-1])
+        ad = VariantAdapter(alts)
+        label = 'Variant<%s>' % ', '.join(tsrules.short(a).replace('std::vector<int, std::allocator<int>>', 'vector<int>').replace('std::string', 'string') for a in alts)
+        try:
+            ex = Ex(db, q, ad, label, max_states=80).run()
+        except absx.Unsupported as e:
+            chk.unanalysable(prefix + 'L', label, str(e))
+            return None
+        tsrules.report(chk, ex, prefix)
+        chk.extra['typestate'][label] = {'reachable_states': len(ex.states), 'transitions': ex.transitions,
+                                         'states': [ex.describe_state(s) for s in ex.states]}
+    return r, q
+
+
+def rules(chk, db):
+    chk.rule('MO', 'index_ is declared (hence initialised) before value_', minimum=1)
+    got = explore(chk, db)
+    if got is None:
         return
-    tsrules.report(chk, ex)
-    chk.extra['typestate'] = {label: {'reachable_states': len(ex.states), 'transitions': ex.transitions,
-                                      'states': [ex.describe_state(s) for s in ex.states]}}
+    r, q = got
     # BT: Union::Become selects the alternative by index, so it must construct through the TAGGED Construct overload;
     # the untagged one searches for any alternative constructible from the arguments
     chk.rule('BT', 'Union::Become(i, args...) constructs alternative i through Construct(TypeTag<alternative>, args...)', minimum=2)
